@@ -151,7 +151,11 @@ PLANNED_TAGS = ['pd:1D', 'pd:2D', 'pd:argmin-changes-along-grid', 'pd:argmin-con
                 'span:ts-below-both-ends', 'span:ts-between-its-ends', 'span:ts-level-with-an-end',
                 'span:ts-above-both-ends', 'span:ts-is-the-lowest-state',
                 'span:ts-is-the-lowest-state,before-the-highest', 'span:ts-is-the-lowest-state,after-the-highest',
-                'spanc:ts-is-the-lowest-state', 'spank:two-sequences-same-names']
+                'spanc:ts-is-the-lowest-state', 'spank:two-sequences-same-names',
+                # fifth round: the identity of a species object vs its name
+                'pd:ident-anon', 'pd:ident-anon-all', 'pd:ident-same', 'pd:ident-alias', 'pd:ident-2D',
+                'pd:two-species-objects-one-name', 'pd:two-species-objects-without-a-name',
+                'pd:one-species-object-under-two-keys']
 
 
 def bounds(tier):
@@ -178,6 +182,13 @@ def bounds(tier):
                 span_two_gases=dict(patterns=TWO_GAS_PATTERNS, conditions=(TWO_GAS_CONDS if tier == 'quick' else 'all (3 steps: %r)' % TWO_GAS_CONDS),
                                     gas_names=GAS_NAMES, named_patterns=NAMED_PATTERNS, named_conditions=NAMED_CONDS,
                                     routes=['Reactions.get_E_span', 'Network.get_E_span', 'Network.get_min_E_span']),
+                species_identity=dict(variants=IDENT_TEXT, pairs_2D=ID_PAIRS, scans_1D=X_SCANS,
+                                      n=([1, 3, 8] if tier == 'quick' else '1-8'),
+                                      sizes_2D=('(2,5) / (5,2)' if tier == 'quick' else '(1,1), (2,5), (5,2), (5,5)'),
+                                      naming_schemes=("table names (+ 'us' for the nameless surface species)"
+                                                      if tier == 'quick' else ['table names'] + SCHEMES),
+                                      deviations_1D=['second diagram (deepcopy / new)', 'same object again',
+                                                     'rotation 3 / offset 1', "fixed conditions 's'"]),
                 near_phase_boundary=dict(scans=X_SCANS, pairs='all 28 pairs of the 8 reactions', search_range=X_RANGE,
                                          relative_distances=NEAR[tier], orders=['pair', 'pair reversed', 'full list of 8',
                                                                                'full list reversed'],
@@ -202,18 +213,38 @@ def bounds(tier):
 
 
 # =================================================================== phase diagrams
-def _species(scheme=None):
+IDENTS = ['anon', 'anon-all', 'same', 'alias']
+IDENT_TEXT = {'anon': 'surface species without a name (looked up through dictionary keys)',
+              'anon-all': 'no species has a name (looked up through dictionary keys)',
+              'same': 'different species objects carry the same name',
+              'alias': 'one species object under two dictionary keys'}
+ALIAS = {'M': 'clean', 'O2': 'oxygen', 'H2O': 'water'}
+
+
+def _species(scheme=None, ident=None):
+    """The species table, keyed by tag.  `ident` (fifth round) separates the IDENTITY of a species object from its
+    `name`: 'anon' every surface species has name None (the default) and is reachable only through its dictionary key;
+    'anon-all' the gases as well; 'same' every surface species is explicitly called 'slab' and a second, different O2
+    object (key 'O2b', 0.3 eV lower) carries the same name as the first; 'alias' names are unique but M, O2 and H2O are
+    also listed under a second key."""
     from pmutt.statmech import StatMech, trans, rot, vib, elec
 
+    def _nm(tag, scheme):
+        if ident == 'anon-all' or (ident == 'anon' and tag not in GASES):
+            return None
+        if ident == 'same' and tag not in GASES:
+            return _name('slab', scheme)
+        return _name(tag, scheme)
+
     def gas(name, E, wn, rt, geom, sig, mw, el):
-        return StatMech(name=_name(name, scheme), elements=el,
+        return StatMech(name=_nm(name, scheme), elements=el,
                         trans_model=trans.FreeTrans(n_degrees=3, molecular_weight=mw),
                         vib_model=vib.HarmonicVib(vib_wavenumbers=list(wn)),
                         rot_model=rot.RigidRotor(symmetrynumber=sig, geometry=geom, rot_temperatures=list(rt)),
                         elec_model=elec.GroundStateElec(potentialenergy=E, spin=0))
 
     def solid(name, E, wn, el):
-        return StatMech(name=_name(name, scheme), elements=el, vib_model=vib.HarmonicVib(vib_wavenumbers=list(wn)),
+        return StatMech(name=_nm(name, scheme), elements=el, vib_model=vib.HarmonicVib(vib_wavenumbers=list(wn)),
                         elec_model=elec.GroundStateElec(potentialenergy=E, spin=0))
 
     sp = {'O2': gas('O2', E_O2, [2205.0], [2.08], 'linear', 2, 31.998, {'O': 2}),
@@ -230,7 +261,67 @@ def _species(scheme=None):
         sp[tag] = solid(tag, E, BASE_WN + [3600.0, 900.0, 500.0] * m, {'Pt': 1, 'O': m, 'H': m})
     sp['MOOH'] = solid('MOOH', E_M + E_O2 / 2 + E_H2O - E_H2 / 2 - 1.6,
                        BASE_WN + [3600.0, 900.0, 600.0, 500.0, 450.0, 400.0], {'Pt': 1, 'O': 2, 'H': 1})
+    if ident == 'same':
+        sp['O2b'] = gas('O2', E_O2 - 0.3, [2205.0], [2.08], 'linear', 2, 31.998, {'O': 2})
+    elif ident == 'alias':
+        for tag, other in ALIAS.items():
+            sp[other] = sp[tag]
     return sp
+
+
+def _reaction_parts(tag):
+    """(reactants, products) of a formation reaction as lists of (tag, coefficient)."""
+    if tag.startswith('MO') and tag[2:].isdigit():
+        n = {'MO05': 0.5, 'MO1': 1.0, 'MO2': 2.0, 'MO3': 3.0}[tag]
+        return [('M', 1), ('O2', n / 2)], [(tag, 1)]
+    if tag.startswith('MOH'):
+        m = int(tag[3:])
+        return [('M', 1), ('H2O', m)], [(tag, 1), ('H2', m / 2)]
+    if tag == 'Mstar':
+        return [('M', 1)], [('Mstar', 1)]
+    if tag == 'MOOH':
+        return [('M', 1), ('O2', 0.5), ('H2O', 1)], [(tag, 1), ('H2', 0.5)]
+    raise ValueError(tag)
+
+
+def _reaction_ident(tag, sp, ident, i):
+    """Formation reaction i of a diagram whose species table separates identity from name.  'anon', 'anon-all',
+    'alias': written as a string and resolved through the dictionary keys by Reaction.from_string (alias keys for M
+    in the odd, for O2 / H2O in the even reactions); 'same': through the constructor, the second O2 object in the
+    reactions of MO2, MO05 and MOOH."""
+    from pmutt.reaction import Reaction
+    react, prod = _reaction_parts(tag)
+    if ident == 'same':
+        def obj(t):
+            return sp['O2b'] if (t == 'O2' and tag in ('MO2', 'MO05', 'MOOH')) else sp[t]
+        return Reaction(reactants=[obj(t) for t, _ in react], reactants_stoich=[c_ for _, c_ in react],
+                        products=[obj(t) for t, _ in prod], products_stoich=[c_ for _, c_ in prod])
+
+    def key(t):
+        if ident == 'alias' and t in ALIAS and (i % 2 == 1) == (t == 'M'):
+            return ALIAS[t]
+        return t
+
+    def side(parts):
+        return ' + '.join((key(t) if (c_ == 1 and i % 2 == 0) else '%r%s' % (c_, key(t))) for t, c_ in parts)
+    return Reaction.from_string('%s = %s' % (side(react), side(prod)), sp)
+
+
+def _ident_tags(rxns, ident, ctx):
+    """Tags that make the collision itself mandatory: the diagram really holds different species objects under one
+    name / one object under two keys."""
+    objs = {}
+    for r in rxns:
+        for s_ in list(r.reactants) + list(r.products):
+            objs[id(s_)] = s_
+    names = [o.name for o in objs.values()]
+    if len(set(names)) < len(names):
+        ctx.tag('pd:two-species-objects-one-name')
+        if names.count(None) >= 2:
+            ctx.tag('pd:two-species-objects-without-a-name')
+    if ident == 'alias':
+        ctx.tag('pd:one-species-object-under-two-keys')
+    ctx.tag('pd:ident-' + ident)
 
 
 def _reaction(tag, sp):
@@ -253,10 +344,11 @@ def _reaction(tag, sp):
 
 def _diagram(case):
     from pmutt.reaction.phasediagram import PhaseDiagram
-    sp = _species(case.get('names'))
+    ident = case.get('ident')
+    sp = _species(case.get('names'), ident) if ident else _species(case.get('names'))
     order = RXN_ORDER[case['rot']:] + RXN_ORDER[:case['rot']]
     tags = order[:case['n']]
-    rxns = [_reaction(t, sp) for t in tags]
+    rxns = [(_reaction_ident(t, sp, ident, i) if ident else _reaction(t, sp)) for i, t in enumerate(tags)]
     nform = case.get('nform')
     if nform in ('intlist', 'intarray', 'tuple'):
         norms = [NORMS_INT[(i + case['off']) % 4] for i in range(case['n'])]        # Python ints
@@ -455,6 +547,8 @@ def _pd_sig(case):
         s['fixed'] = {'i': 'ints', 'e': 'empty species kwargs', 's': 'all other species'}[case['base']]
     if case.get('names'):
         s['names'] = case['names']
+    if case.get('ident'):
+        s['species'] = IDENT_TEXT[case['ident']]
     return s
 
 
@@ -548,6 +642,8 @@ def _run_pd1(case, ctx):
     base = _base([case['scan']], case['base'], scheme)
     ctx.tag('pd:1D')
     ctx.tag('pd:scan-' + case['scan'])
+    if case.get('ident'):
+        _ident_tags(rxns, case['ident'], ctx)
     if scheme:
         ctx.tag('pd:names-' + scheme)
     if case['base'] == 's':
@@ -622,6 +718,9 @@ def _run_pd2(case, ctx):
     base = _base([ta, tb], case['base'], scheme)
     n = len(rxns)
     ctx.tag('pd:2D')
+    if case.get('ident'):
+        _ident_tags(rxns, case['ident'], ctx)
+        ctx.tag('pd:ident-2D')
     ctx.tag('pd:scan-' + ta)
     ctx.tag('pd:scan-' + tb)
     if scheme:
@@ -860,6 +959,64 @@ def _pd2_cases(tier):
                             if scheme:
                                 case['names'] = scheme
                             yield case
+
+
+# =================================================================== identity of a species vs its name (fifth round)
+# A species is the OBJECT a reaction holds; its `name` is only the address of its '<name>_kwargs' conditions and may be
+# None (the default), shared with another object, or differ from the dictionary key it was found under.  Same
+# clauses, same oracle (the reactions' own values at freshly built conditions), 1-D, 2-D and 1-vs-2-D.
+ID_PAIRS = PAIRS + [pr for pr in PAIRS_NAMES if pr not in PAIRS]
+N_PDID_SHARDS = 4
+
+
+def _pdid_cases(tier):
+    full = tier == 'thorough'
+    ns = range(1, 9) if full else (1, 3, 8)
+    units_ = UNITS if full else (None, 'eV')
+    for ident in IDENTS:
+        for scheme in ([None] + SCHEMES if (full and ident != 'anon-all') else [None] + (['us'] if ident == 'anon' else [])):
+            for n in ns:
+                # two-parameter scans (each row and column against the one-parameter scan)
+                for pair in (ID_PAIRS if ident != 'anon-all' else [('T', 'P'), ('P', 'T')]):
+                    species_scan = any(x.endswith('_kwargs') for x in pair)
+                    for sizes in (((2, 5), (5, 2)) if not full else ((1, 1), (2, 5), (5, 2), (5, 5))):
+                        for units in units_:
+                            for base in (('a', 's') if ident != 'anon-all' else ('a',)):
+                                # quick: (2, 5) dimensionless with 'a', (5, 2) in eV with 's' ('a' when no species
+                                # has a name to address)
+                                if not full and (sizes == (5, 2)) != (units == 'eV'):
+                                    continue
+                                if not full and ident != 'anon-all' and (base == 's') != (sizes == (5, 2)):
+                                    continue
+                                if scheme and not (species_scan or base == 's'):
+                                    continue        # the naming scheme only matters where a name is an address
+                                if scheme and not full and sizes != (5, 2):
+                                    continue
+                                case = dict(kind='pd2', n=n, rot=0, off=0, pair=list(pair), sizes=list(sizes),
+                                            units=units, base=base, normlist=False, ident=ident)
+                                if scheme:
+                                    case['names'] = scheme
+                                yield case
+                if scheme and not full:
+                    continue
+                # one-parameter scans; at size 5 one deviation each: second diagram, same object again, rotation
+                for scan in (X_SCANS if ident != 'anon-all' else ['T', 'P']):
+                    for nx in ((2, 5) if not full else (1, 2, 5, 30)):
+                        for units in units_:
+                            devs = [dict()]
+                            if nx == 5 and units != 'kJ/mol':
+                                devs += [dict(twin='deepcopy'), dict(again='same'), dict(rot=3, off=1)]
+                                if full:
+                                    devs.append(dict(twin='new'))
+                                if ident != 'anon-all':
+                                    devs.append(dict(base='s'))
+                            for dv in devs:
+                                case = dict(kind='pd1', n=n, rot=0, off=0, scan=scan, nx=nx, units=units, base='a',
+                                            normlist=False, ident=ident)
+                                if scheme:
+                                    case['names'] = scheme
+                                case.update(dv)
+                                yield case
 
 
 # =================================================================== grid points next to a phase boundary (fourth round)
@@ -1867,6 +2024,8 @@ def shards(tier):
     # fourth round: grid points next to a phase boundary, kept results, free transition-state energies
     for kind, k in (('pdx', N_PDX_SHARDS), ('keep', N_KEEP_SHARDS), ('spant', N_SPANT_SHARDS), ('spank', 1)):
         out += [dict(kind=kind, part=i, nparts=k) for i in range(k)]
+    # fifth round: identity of a species vs its name
+    out += [dict(kind='pdid', part=i, nparts=N_PDID_SHARDS) for i in range(N_PDID_SHARDS)]
     return out
 
 
@@ -1892,9 +2051,9 @@ def check_case(case, ctx):
 def run_shard(shard, ctx):
     kind = shard['kind']
     gen = {'pd1': _pd1_cases, 'pd2': _pd2_cases, 'span': _span_cases, 'spanc': _spanc_cases, 'pdx': _pdx_cases,
-           'keep': _keep_cases, 'spant': _spant_cases, 'spank': _spank_cases}[kind](ctx.tier)
+           'keep': _keep_cases, 'spant': _spant_cases, 'spank': _spank_cases, 'pdid': _pdid_cases}[kind](ctx.tier)
     fn = {'pd1': _run_pd1, 'pd2': _run_pd2, 'span': _run_span, 'spanc': _run_spanc, 'pdx': _run_pdx,
-          'keep': _run_keep, 'spant': _run_span, 'spank': _run_spank}[kind]
+          'keep': _run_keep, 'spant': _run_span, 'spank': _run_spank, 'pdid': check_case}[kind]
     for i, case in enumerate(gen):
         if i % shard['nparts'] != shard['part']:
             continue
@@ -1953,7 +2112,11 @@ LEVEL_TEXT = ('Exhaustive product enumeration on the real PhaseDiagram, Reaction
               'full list, 1-D and 2-D, with ties accepted only between equal tabulated values; tables, stable phases and '
               'energy spans kept by the caller across later calls (other units, conditions, dimension, a second diagram '
               '/ sequence) still equal the oracle of their own call and share no memory; transition states with energies '
-              'anywhere on the lattice (below both end states and the lowest state of the sequence, between, level, above).')
+              'anywhere on the lattice (below both end states and the lowest state of the sequence, between, level, above). '
+              'Fifth round: the identity of a species object against its name - surface species (or all species) left '
+              'without a name and found only through the dictionary keys given to Reaction.from_string, different '
+              'species objects carrying the same explicit name (all surface phases, and two O2 objects of different '
+              'energy), one object listed under two keys - in 1-D, 2-D and 1-vs-2-D scans over every scan variable.')
 LEVEL_NOTE = ('Species from a fixed table whose lines cross along each scan; rotations/offsets of the reaction list by '
               'one deviation in the quick tier, full in the thorough tier; 5-8 step profiles only in the thorough tier '
               '(two deviations from two base profiles). Ties accept any tied answer.')
